@@ -369,8 +369,19 @@ class Engine:
     def prove_value_eq(self, name, a, b, tier='I', kind='post'):
         """goal a == b for values; sequences are compared by length + element at one skolem index"""
         if isinstance(a, VRef) and isinstance(b, VRef) and a.oid != b.oid and self.kind_of(a) == 'dict' and self.kind_of(b) == 'dict':
-            from .models_iso import AssocDict
+            from .models_iso import AssocDict, MsgDict
             da, db = self.getf(a, 'val'), self.getf(b, 'val')
+            if isinstance(da, MsgDict) or isinstance(db, MsgDict):
+                pres = self.ghost.get('msg_present')
+                ma = da if isinstance(da, MsgDict) else MsgDict(da, z3.IntVal(2))
+                mb = db if isinstance(db, MsgDict) else MsgDict(db, z3.IntVal(2))
+                if set(ma.base) != set(mb.base):
+                    return self.prove(name + '.keys', z3.BoolVal(False), tier, kind)
+                for k in ma.base:
+                    self.prove_value_eq('%s[%s]' % (name, k), ma.base[k], mb.base[k], tier, kind)
+                ua, ub = ma.upto, mb.upto
+                same = z3.Or(ua == ub, z3.And(ub == ua + 1, z3.Not(pres(ua))), z3.And(ua == ub + 1, z3.Not(pres(ub))))
+                return self.prove(name + '.elements-up-to', same, tier, kind)
             ea = AssocDict.from_concrete(da).entries if isinstance(da, dict) else da.entries
             eb = AssocDict.from_concrete(db).entries if isinstance(db, dict) else db.entries
             return self.prove_value_eq(name + '.entries', ea, eb, tier, kind)
@@ -556,6 +567,9 @@ class Engine:
         if isinstance(v, VOpaque):
             if v.sort_name in self.opaque_truthy:
                 return z3.BoolVal(True)
+            if v.sort_name == 'fieldval':
+                from .models_iso import TRUTHY
+                return TRUTHY(v.t.arg(0))
         if isinstance(v, VUnknown):
             raise Unsupported('use of %r' % (v,))
         raise Unsupported('truthiness of %r' % (v,))
@@ -1535,6 +1549,21 @@ class Engine:
     def compare(self, a, op, b):
         if isinstance(a, VUnknown) or isinstance(b, VUnknown):
             raise Unsupported('use of unknown')
+        if isinstance(op, (ast.Eq, ast.NotEq)) and (isinstance(a, VOpaque) and a.sort_name == 'fieldval' or isinstance(b, VOpaque) and b.sort_name == 'fieldval'):
+            fv, other = (a, b) if isinstance(a, VOpaque) and a.sort_name == 'fieldval' else (b, a)
+            if isinstance(other, VInt) and other.conc() == 0:
+                from .models_iso import ISZERO
+                c = ISZERO(fv.t.arg(0))
+                return c if isinstance(op, ast.Eq) else z3.Not(c)
+            raise Unsupported('comparison of an abstract message value with %r' % (other,))
+        if isinstance(op, (ast.Eq, ast.NotEq)) and (isinstance(a, VOpaque) and a.sort_name == 'cfgval' or isinstance(b, VOpaque) and b.sort_name == 'cfgval'):
+            cv, other = (a, b) if isinstance(a, VOpaque) and a.sort_name == 'cfgval' else (b, a)
+            from .models_iso import CFGEQ
+            cs = conc_str(other) if isinstance(other, VSeq) else None
+            if cs is None:
+                raise Unsupported('comparison of an abstract configuration value with %r' % (other,))
+            c = CFGEQ(cv.t, z3.IntVal(abs(hash(cs)) % (10 ** 9)) if False else z3.IntVal(sum(ord(ch) * 131 ** i for i, ch in enumerate(cs)) % (10 ** 12)))
+            return c if isinstance(op, ast.Eq) else z3.Not(c)
         if isinstance(op, (ast.Eq, ast.NotEq)):
             a2 = self.list_val(a) if isinstance(a, VRef) and self.kind_of(a) == 'list' else a
             b2 = self.list_val(b) if isinstance(b, VRef) and self.kind_of(b) == 'list' else b
@@ -1807,6 +1836,16 @@ class Engine:
         d = self.getf(ref, 'val')
         if not isinstance(d, dict):
             return d.get(self, ref, key, strict, default)
+        if isinstance(key, VSeq) and conc_str(key) is None and key.tag and key.tag[0] == 'dec' and key.kind == 'str':
+            # key = str(n) for a symbolic int n: str() is canonical, so the lookup is a case split on n itself
+            t = key.tag[1]
+            for k in d:
+                if isinstance(k, str) and k.isdigit() and str(int(k)) == k:
+                    if self.branch(t == int(k)):
+                        return d[k]
+            if strict:
+                self.throw(KeyError, 'key')
+            return default
         if isinstance(key, VSeq) and conc_str(key) is None:
             # symbolic key, concrete key set: case split
             for k in d:
